@@ -709,9 +709,10 @@ class Interp:
             self.st.eqs.append((key, const, True))
         else:
             self.st.eqs.append((key, const, False))
-            if len(eqs) == 1:
-                # a single bit that is not c is 1-c: linear after all
-                self.st.lin.add(eqs[0] ^ 1)
+            live = [e for e in (self.simp(x) for x in eqs) if not (isinstance(e, F) and e.is_const)]
+            if len(live) == 1:
+                # all other digits agree already: the one remaining bit differs — it is 1-c, linear after all
+                self.st.lin.add(live[0] ^ 1)
         return v
 
     def decide(self, v, label="cond") -> bool:
@@ -822,6 +823,28 @@ class Interp:
         self.call(init, [obj] + list(args), kwargs, ci)
         return obj
 
+    def missing_may_return_regular_member(self, ci: ClassInfo) -> bool:
+        """does the class's _missing_ COMPUTE the member it returns (tolerant / nearest matching ...) instead of naming a fixed one?
+        Decided from its return statements: None and `cls.<Member>` are fixed; anything else (a loop variable, a call) is computed."""
+        key = ("missing_regular", ci.qualname)
+        cache = self.repo._cache
+        if key in cache:
+            return cache[key]
+        miss = self.repo.find_method(ci, "_missing_")
+        res = False
+        if miss is not None:
+            members = self.repo.enum_members(ci)
+            for n in ast.walk(miss.node):
+                if isinstance(n, ast.Return) and n.value is not None:
+                    e = n.value
+                    if isinstance(e, ast.Constant) and e.value is None:
+                        continue
+                    if isinstance(e, ast.Attribute) and isinstance(e.value, ast.Name) and e.value.id in ("cls", ci.name) and e.attr in members:
+                        continue   # a fixed, named member (reserved folding): the lazy view with its documented well-formedness reading stays
+                    res = True     # a computed member (loop variable, lookup result ...): only interpretation tells which
+        cache[key] = res
+        return res
+
     def enum_lookup(self, ci: ClassInfo, v):
         members = self.repo.enum_members(ci)
         if isinstance(v, tuple):
@@ -856,6 +879,17 @@ class Interp:
                             return fin_lift(lambda x: self.enum_lookup(ci, x), AInt(list(reversed(forms))))
                         except PathRaise:
                             pass
+                if forms is not None and self.missing_may_return_regular_member(ci):
+                    # _missing_ can hand out ordinary members (tolerant matching ...): the lazy "member <=> equal value" view would
+                    # be wrong, so the lookup is resolved here: exact match with a member value first, _missing_ interpreted otherwise
+                    for m in members.values():
+                        if isinstance(m.value, int) and not isinstance(m.value, bool) and m.value >= 0 \
+                                and self.decide_eq(forms, m.value, f"{ci.name}=={m.name}"):
+                            return m
+                    r = self.call(self.repo.find_method(ci, "_missing_"), [ClassRef(ci), v], {}, ci)
+                    if r is None:
+                        raise PathRaise("ValueError", f"not a valid {ci.name}")
+                    return r
                 return AEnum(ci, v)
         if isinstance(v, (AOpq,)):
             return self.opaque(f"enum {ci.name} of opaque")
